@@ -17,6 +17,9 @@ pub struct C06;
 #[derive(Clone, Debug, Serialize, Deserialize)]
 pub struct Case {
     pub sets: Vec<(Vec<ColSpec>, Vec<RowProg>)>,
+    /// what the client announced in its handshake response: (max_packet_size, character set)
+    #[serde(default)]
+    pub announced: Option<(u32, u8)>,
 }
 
 fn type_tag(b: &Base) -> u8 {
@@ -124,7 +127,7 @@ impl Prop for C06 {
         "C06"
     }
     fn rule(&self) -> String {
-        "cases = 1-2 text resultsets of 1-12 columns x 0-20 rows answered to a COM_QUERY; every cell drawn from all ToMysqlValue implementors (u8..i64, usize, isize boundary-biased over full ranges; all finite f32/f64 bit patterns incl. subnormals and -0; String/&str/Vec<u8>/&[u8] with lengths over 0-250, 251-65535, >=65536 and contents incl. 0xFB, 0xFF, \"NULL\", \"\"; NaiveDate years 0-9999; NaiveDateTime and Duration with/without microseconds; mysql_common::Value of every variant), passed by value, by reference, in Option (Some/None), via write_col, write_row(values) and write_row(&values); one case in 2500 is a row of 17-70 MB whose 2-6 cells (byte strings around 1x, 2x, 3x the 2^24-1-byte packet size or filling up to +-12 bytes of a packet boundary; integers, short strings and NULLs before, between and after them) are laid out against the packet boundaries of the row message. Oracle: round trip through the reference text-row decoder and the canonical text grammar of the intended type (floats bit-for-bit), NULL vs \"\" vs \"NULL\" kept apart; second opinion from mysql_common's from_value. Non-trivial = a row with >= 2 different Rust types, or a string >= 251 bytes, or a temporal value with microseconds.".into()
+        "cases = 1-2 text resultsets of 1-12 columns x 0-20 rows answered to a COM_QUERY; every cell drawn from all ToMysqlValue implementors (u8..i64, usize, isize boundary-biased over full ranges; all finite f32/f64 bit patterns incl. subnormals and -0; String/&str/Vec<u8>/&[u8] with lengths over 0-250, 251-65535, >=65536 and contents incl. 0xFB, 0xFF, \"NULL\", \"\"; NaiveDate years 0-9999; NaiveDateTime and Duration with/without microseconds; mysql_common::Value of every variant), passed by value, by reference, in Option (Some/None), via write_col, write_row(values) and write_row(&values); one case in 2500 is a row of 17-70 MB whose 2-6 cells (byte strings around 1x, 2x, 3x the 2^24-1-byte packet size or filling up to +-12 bytes of a packet boundary; integers, short strings and NULLs before, between and after them) are laid out against the packet boundaries of the row message. The client's handshake response announces a generated max_packet_size (0, 1 KiB ... 1 GiB, random) and character set (latin1, utf8, utf8mb4, binary, random), which must not matter. Oracle: round trip through the reference text-row decoder and the canonical text grammar of the intended type (floats bit-for-bit), NULL vs \"\" vs \"NULL\" kept apart; second opinion from mysql_common's from_value. Non-trivial = a row with >= 2 different Rust types, or a string >= 251 bytes, or a temporal value with microseconds.".into()
     }
     fn assumptions(&self) -> Vec<String> {
         vec![
@@ -158,7 +161,7 @@ impl Prop for C06 {
             if g.coin() {
                 rows.push(small(g));
             }
-            return Case { sets: vec![(cols, rows)] };
+            return Case { sets: vec![(cols, rows)], announced: Some(gen_client_announcements(g)) };
         }
         let nsets = if g.chance(1, 5) { 2 } else { 1 };
         let mut sets = Vec::new();
@@ -189,7 +192,7 @@ impl Prop for C06 {
                 .collect();
             sets.push((cols, rows));
         }
-        Case { sets }
+        Case { sets, announced: if g.coin() { Some(gen_client_announcements(g)) } else { None } }
     }
     fn exec(&self, case: &Case) -> Exec {
         let mut ex = Exec::default();
@@ -200,7 +203,14 @@ impl Prop for C06 {
             .enumerate()
             .map(|(i, (cols, rows))| Step::Set { cols: cols.clone(), rows: rows.clone(), end: if i + 1 == n { SetEnd::Finish } else { SetEnd::FinishOne } })
             .collect();
-        let conv = Conversation::new(vec![Cmd::Query { text: Blob::text("SELECT x") }, Cmd::Ping], vec![Action::Result(Program { steps })]);
+        let mut conv = Conversation::new(vec![Cmd::Query { text: Blob::text("SELECT x") }, Cmd::Ping], vec![Action::Result(Program { steps })]);
+        if let (Some((mp, cs)), HsKind::V41 { max_packet, charset, .. }) = (case.announced, &mut conv.hs.kind) {
+            *max_packet = mp;
+            *charset = cs;
+            if mp >= 1024 && mp < MAX_PAYLOAD as u32 {
+                ex.class("client-announced-max_packet_size<2^24-1");
+            }
+        }
         // classification
         let mut cells = 0u64;
         for (_, rows) in &case.sets {
@@ -241,6 +251,11 @@ impl Prop for C06 {
             }
         }
         ex.count("cells_checked", cells);
+        // first, on this very thread, some of the values are written to a writer that breaks after
+        // 0-2 bytes (a connection that died in mid-cell): nothing of that may show in what follows
+        for (k, c) in case.sets.iter().flat_map(|(_, rows)| rows.iter()).flat_map(|r| r.cells.iter()).filter(|c| !matches!(c.base, Base::BigBytes { .. } | Base::BigStr { .. })).take(6).enumerate() {
+            let _ = catch(|| dispatch(c, &mut FailingTextSink(k % 3)));
+        }
         let o = run_with(&conv, None, false);
         if let RunResult::Panic(p) = &o.result {
             ex.fail(format!("c06-panic|{}", panic_signature(p)), format!("run_on panicked: {}", o.result.brief()));
